@@ -37,6 +37,8 @@ Proof.
   - destruct H8 as [H8|X]; [|contradiction].
     rewrite slice_app_r by lia. rewrite H8. replace (8 - 8) with 0 by lia.
     rewrite slice_app_l by (rewrite len_enc32; lia). rewrite slice_enc32_all. apply le_enc32_mod.
+  - rewrite slice_app_r by lia. rewrite H4. replace (4 - 4) with 0 by lia.
+    rewrite slice_app_l by (rewrite len_enc32; lia). rewrite slice_enc32_all. apply le_enc32_mod.
 Qed.
 
 Lemma len_set_size h hdr ts : len hdr = hsize h -> len (set_size h hdr ts) = hsize h.
